@@ -287,7 +287,7 @@ extern "C" fn pre_cb(ev: *const Event, act: *mut Action) {
         }
         let fk = FILTER_KIND.load(SeqCst);
         let fh = FILTER_HINT.load(SeqCst);
-        let filter_ok = (fk == 0 || fk == ev.kind)
+        let filter_ok = (fk == 0 || fk == ev.kind || (fk < 0 && -fk != ev.kind))
             && (fh < 0 || {
                 let fname = if ev.kind == EV_OPEN || ev.kind == EV_UNLINK { rel_of(ev.path).0 } else { fd_name(ev.fd).0 };
                 fname.ends_with(".hint") == (fh == 1)
@@ -500,6 +500,14 @@ pub fn marker(op: usize, end: bool) {
 /// write on the same descriptor fails.
 pub fn inject_arm(site: i64, errno: i32, short: bool) {
     FILTER_KIND.store(0, SeqCst);
+    FILTER_HINT.store(-1, SeqCst);
+    inject_arm_inner(site, errno, short);
+}
+
+/// Like `inject_arm`, but fsync/fdatasync calls are neither counted nor failed (for stores whose
+/// background task syncs on a timer: those calls come at arbitrary moments and on nobody's behalf).
+pub fn inject_arm_no_fsync(site: i64, errno: i32, short: bool) {
+    FILTER_KIND.store(-EV_FSYNC, SeqCst);
     FILTER_HINT.store(-1, SeqCst);
     inject_arm_inner(site, errno, short);
 }
